@@ -10,7 +10,7 @@ PROGRAMS = {
     "xml": "from xml.etree.ElementTree import parse\n\net = parse('some.xml')\nassert (1, 'x')\n",
     "pickle": "import pickle\n\nobj = pickle.load(open('p', 'rb'))\ns = set(['a'])\n",
     # two codemods that need the same package (security)
-    "both": 'import requests\nimport subprocess\n\nresp = requests.get("http://example.com")\nsubprocess.run("ls -l")\nvalues = set([1, 2])\n',
+    "both": 'import requests\nimport subprocess\nimport sys\n\nurl = sys.argv[0]\nresp = requests.get(url)\ncmd = sys.argv[-1]\nsubprocess.run(cmd)\nvalues = set([1, 2])\n',
     "plain": "def f(v=[]):\n    return any([i for i in v])\n\nx = set([1, 2])\n",
 }
 # codemods that have a trigger in each program, in a sensible execution order
